@@ -37,6 +37,46 @@ CHECKS.update({
     ),
 })
 
+CHECKS.update({
+    "C03": (
+        "stateful property-based testing against a multiset model keyed by truncated byte strings",
+        "Random histories over 4 heavy-hitter sketches with NUL-alias / all-NUL / over-long keys, boundary multiplicities, merges and save/load; "
+        "after every step every reported (key,count) and every hh[key] is compared with the key's true multiplicity.",
+        "Trusts the multiset model (key identity = first max_key_len bytes as a byte string).",
+        "7/C03",
+    ),
+    "C04": (
+        "stateful property-based testing against a dominance bound from a multiset model + exhaustive width-1 enumeration",
+        "After every step every key whose Boyer-Moore potential bound max_r(2f-W_r) is positive must be reported with at least that count "
+        "(lookup and query under 4 thresholds), a majority key must be first; asserted only while no counter can have saturated. All "
+        "sequences of <= 4 (quick) / 6 (thorough) weighted items with every prefix split and merge direction are enumerated at width 1.",
+        "Trusts the potential argument of DESIGN 7/C04 and the probe-derived cell map.",
+        "7/C04",
+    ),
+    "C07": (
+        "statistical property-based testing with calibrated finite-sample envelopes + exact linear-counting oracle for small n",
+        "Sketches for every p in 7..16 and S seeds are filled incrementally and queried on a log grid incl. both regime boundaries; small-n "
+        "cells are decided exactly (deterministic upper bound, reference-hash occupancy), the others by a 10-sigma per-estimate bound and a "
+        "bound on the mean over seeds. Inputs are a pure function of VERIF_SEED.",
+        "Envelope constants calibrated on the pinned tree (DESIGN 7/C07); false-alarm probability per run far below 1e-9.",
+        "7/C07",
+    ),
+    "C13": (
+        "stateful property-based testing with a freshly loaded copy as freshness oracle",
+        "Random histories interleave state changes with queries under varying k and thresholds (repeat / change / walk patterns); each answer "
+        "is taken before any helper call and compared with the reloaded copy's answer, hh[key], the threshold, k-truncation and ordering rules.",
+        "Trusts save/load (checked by C10) to produce an equivalent sketch without a stale cache.",
+        "7/C13",
+    ),
+    "C17": (
+        "differential testing of query() against an independent model of the HLL++ estimator on generated and boundary register arrays",
+        "Register arrays (real, simulated, synthetic, and arrays constructed to sit on either side of threshold[p] and of 5m) are assigned "
+        "directly; query() must equal the numpy/integer model to 1e-9 relative; table facts are asserted for every p.",
+        "Trusts the model of the estimator as stated in the property; the shipped tables are data.",
+        "7/C17",
+    ),
+})
+
 NOT_YET = {}
 
 
